@@ -1,4 +1,5 @@
 SPECIFICATION TraceSpec
+CONSTANT Relax = {}
 CONSTRAINT HW
 POSTCONDITION TraceAccepted
 CHECK_DEADLOCK FALSE
